@@ -64,6 +64,108 @@ func c15Timeout(name string, st serf.MemberStatus, override bool) time.Duration 
 	return base * time.Duration(num) / time.Duration(den)
 }
 
+// c15PruneRace: a pruning leave about a member that is still alive makes the node wait
+// (BroadcastTimeout + LeavePropagateDelay) before it erases the member; other intents about
+// the same member arrive meanwhile on other goroutines. Whatever they do, the member is reaped
+// exactly once and the counters agree with the member list afterwards. Real time (the wait
+// happens under the member lock, which a bubble cannot advance through).
+func c15PruneRace(rng *rand.Rand, seq int) (viols []string, stats map[string]int) {
+	stats = map[string]int{}
+	nw := simnet.New(int64(seq))
+	nd, err := cluster.Start(nw, cluster.Opts{Name: fmt.Sprintf("pr-%d", seq), IP: "10.15.0.1", Profile: "passive", Mutate: func(c *serf.Config) {
+		c.ReapInterval = 100 * time.Hour
+		c.BroadcastTimeout = 12 * time.Millisecond
+		c.LeavePropagateDelay = 3 * time.Millisecond
+	}})
+	if err != nil {
+		return []string{"setup: " + err.Error()}, stats
+	}
+	defer nd.Close()
+	for round := 0; round < 12 && len(viols) == 0; round++ {
+		name := fmt.Sprintf("r%d", round)
+		fn := cluster.FakeNode(name, fmt.Sprintf("10.15.1.%d", round+1), 7946, nil)
+		nd.NotifyJoin(fn)
+		lt := uint64(100 + 10*round)
+		g := newBGroup()
+		g.Go(func() { nd.NotifyMsg(wire.Encode(wire.Leave, &wire.MsgLeave{LTime: lt, Node: name, Prune: true})) })
+		second := rng.Intn(4)
+		delay := time.Duration(1+rng.Intn(8)) * time.Millisecond
+		g.Go(func() {
+			time.Sleep(delay)
+			switch second {
+			case 0: // a second pruning leave with a newer time
+				nd.NotifyMsg(wire.Encode(wire.Leave, &wire.MsgLeave{LTime: lt + 1, Node: name, Prune: true}))
+			case 1: // the member refutes and then fails
+				nd.NotifyMsg(wire.Encode(wire.Join, &wire.MsgJoin{LTime: lt + 1, Node: name}))
+				nd.NotifyLeave(fn)
+			case 2: // a duplicate of the same intent
+				nd.NotifyMsg(wire.Encode(wire.Leave, &wire.MsgLeave{LTime: lt, Node: name, Prune: true}))
+			default: // memberlist reports it dead meanwhile
+				nd.NotifyLeave(fn)
+			}
+		})
+		g.Wait()
+		marker := fmt.Sprintf("marker-%d-%d", seq, round)
+		if err := nd.S.UserEvent(marker, nil, false); err != nil {
+			return []string{"setup: marker: " + err.Error()}, stats
+		}
+		deadline := time.Now().Add(60 * time.Second)
+		for {
+			seen, reaps := false, 0
+			for _, le := range nd.Events() {
+				switch e := le.E.(type) {
+				case serf.MemberEvent:
+					if e.Type == serf.EventMemberReap {
+						for _, m := range e.Members {
+							if m.Name == name {
+								reaps++
+							}
+						}
+					}
+				case serf.UserEvent:
+					if e.Name == marker {
+						seen = true
+					}
+				}
+			}
+			if !seen {
+				if time.Now().After(deadline) {
+					stats["prune_race_watchdog"]++
+					return
+				}
+				time.Sleep(200 * time.Microsecond)
+				continue
+			}
+			stats["prune_races"]++
+			listed := false
+			nFailed, nLeft := 0, 0
+			for _, m := range nd.S.Members() {
+				if m.Name == name {
+					listed = true
+				}
+				switch m.Status {
+				case serf.StatusFailed:
+					nFailed++
+				case serf.StatusLeft:
+					nLeft++
+				}
+			}
+			st := nd.S.Stats()
+			if reaps > 1 {
+				viols = append(viols, fmt.Sprintf("member %s (pruning leave while alive, then variant %d after %v): %d reap events for one member", name, second, delay, reaps))
+			}
+			if listed && reaps > 0 {
+				viols = append(viols, fmt.Sprintf("member %s (variant %d): reaped but still listed", name, second))
+			}
+			if st["failed"] != strconv.Itoa(nFailed) || st["left"] != strconv.Itoa(nLeft) {
+				viols = append(viols, fmt.Sprintf("member %s (pruning leave while alive, then variant %d after %v): Stats failed=%s left=%s but Members() lists %d failed and %d left", name, second, delay, st["failed"], st["left"], nFailed, nLeft))
+			}
+			break
+		}
+	}
+	return
+}
+
 func TestC15(t *testing.T) {
 	r := evid.Start(t, "C15", "exploration")
 	n := r.N(800, 30000)
@@ -71,6 +173,19 @@ func TestC15(t *testing.T) {
 	jumps := []time.Duration{time.Second, 14 * time.Second, 15 * time.Second, 16 * time.Second, time.Minute, 14 * time.Minute, 15 * time.Minute, 16 * time.Minute,
 		29 * time.Minute, 31 * time.Minute, 44 * time.Minute, 46 * time.Minute, 59 * time.Minute, time.Hour, 61 * time.Minute, 2 * time.Hour, 3 * time.Hour, 3*time.Hour + time.Minute, 6 * time.Hour, 7 * time.Hour}
 
+	r.Cases("prunerace", r.N(32, 600), 16, func(ci int, rng *rand.Rand) {
+		viols, stats := c15PruneRace(rng, ci)
+		r.Eval(1)
+		for k, v := range stats {
+			r.Count(k, v)
+		}
+		if stats["prune_race_watchdog"] > 0 {
+			r.Inconclusive("prune race: marker event not seen within 60 s (watchdog)")
+		}
+		for _, v := range viols {
+			r.Violation("prune-race", ci, v, v)
+		}
+	})
 	r.Cases("history", n, 0, func(ci int, rng *rand.Rand) {
 		type viol struct{ key, msg string }
 		var viols []viol
